@@ -5,7 +5,11 @@
     handlers                                             -> handlers etcd/Compact,…,brain/Watch
     req <api> <handler> role=<leader|follower> proxy=<0|1> leader=<ok|down|err> [shape=<s>]
                                                          -> req <api> <handler> <outcome> calls=<m1,m2|->
+    cfg init=<n> [base=<b>] [variant=beforeFix|fixed]    -> cfg ok   (default variant: `asIs`, the code as it is)
     commit | begin rN | enter rN | answer [mode=ok|err|down] | reply | set rN | serve rN | state
+    fwd <create|update> k=<n> [stale=1] [lose=1]         -> fwd <shape> <ok|failed|unavailable> exec=<n> applied=<0|1> local=-
+        (a follower forwards a write transaction through the etcd proxy; `lose=1`: the leader executes it, the answer is lost.
+         LAW: executed at most once per client request; an Unavailable from the forward path is passed to the client)
 -/
 import KB.Server
 import KB.Generated.HandlerGuards
@@ -18,6 +22,8 @@ structure St where
   vt : Variant := asIs
   base : Nat := 10
   known : List Nat := []
+  /-- the forwarding leader's store (keys of the current `cfg` epoch) -/
+  fwd : KB.Server.Store := { rev := 1000 }
 
 def init : St := {}
 
@@ -108,10 +114,15 @@ def step (st : St) (toks : List String) : St × String :=
   match pos with
   | "cfg" :: _ =>
     let n := ((opt opts "init").map atou).getD 10
-    let vt := if opt opts "variant" == some "fixed" then fixed else asIs
+    -- default: the code as it is (monotone SetCurrentRevision since /repo db7d4ff); `variant=beforeFix` = the
+    -- plain store of the older code (historical witness), `variant=fixed` = with the proposed generation check
+    let vt := match opt opts "variant" with
+      | some "fixed" => fixed
+      | some "beforeFix" => beforeFix
+      | _ => asIs
     -- `base` = the revision at which the shared store was empty (keys visible at revision R: R - base)
     let base := ((opt opts "base").map atou).getD n
-    ({ s := KB.Server.init n, vt := vt, base := base, known := [] }, "cfg ok")
+    ({ s := KB.Server.init n, vt := vt, base := base, known := [], fwd := ({ rev := 1000 } : KB.Server.Store) }, "cfg ok")
   | ["handlers"] =>
     (st, "handlers " ++ joinOr ((Generated.handlerGuards.filter (·.rpc)).map fun g => s!"{apiStr g.api}/{g.handler}") ",")
   | ["req", api, handler] => (st, reqLine api handler opts)
@@ -179,6 +190,28 @@ def step (st : St) (toks : List String) : St × String :=
         match KB.Server.step st.vt st.s (.readServe i) with
         | some s' => ({ st with s := s' }, s!"serve {r} rev={s'.followerRev} n={s'.followerRev - st.base}")
         | none => (st, s!"serve {r} bad-state")
+  | ["fwd", shape] =>
+    match opt opts "k" with
+    | none => (st, "fwd bad-op")
+    | some ks =>
+      let k := atou ks
+      let lost := opt opts "lose" == some "1"
+      -- an update is guarded by the key's current mod revision; `stale=1` (or a missing key): by revision 1, which no key has
+      let sh : Option TxnShape :=
+        match shape with
+        | "create" => some .create
+        | "update" => some (.update (if opt opts "stale" == some "1" then 1 else (st.fwd.modRev k).getD 1))
+        | _ => none
+      match sh with
+      | none => (st, "fwd bad-op")
+      | some sh =>
+        let r := forward false st.fwd k sh lost
+        let ans := match r.answer with
+          | .ok => "ok"
+          | .failed => "failed"
+          | .unavailable => "unavailable"
+        ({ st with fwd := r.store },
+         s!"fwd {shape} {ans} exec={r.executions} applied={if r.applied then 1 else 0} local=-")
   | ["state"] =>
     (st, s!"state leader={st.s.leaderRev} frev={st.s.followerRev} flight={flightStr st.s.flight}")
   | t :: _ => (st, s!"{t} bad-op")
